@@ -54,7 +54,13 @@ var syncSigma = []srcSym{
 	{"OPINFO", []string{"OPINFO", "x"}},
 	{"NEWLINE", nil},
 	{"APPEND", []string{"APPEND", "ps", "ab"}},
+	// directed streams only (not part of the enumerated alphabet): an argument longer than any
+	// abbreviation threshold of a log line
+	{"SETLONG", []string{"SET", "plong", strings.Repeat("0123456789abcdef", 40)}},
 }
+
+// syncEnumerated: the symbols word enumerations range over
+func syncEnumerated() int { return len(syncSigma) - 1 }
 
 func (s srcSym) bytes() []byte {
 	if s.Argv == nil {
@@ -114,6 +120,45 @@ type syncConfig struct {
 	// the sender handles its next flush-timer case} (the seam verifTimerCase): a command that
 	// arrives between "the timer fired" and "the sender looks at its queue"
 	AtTick bool `json:"at_tick,omitempty"`
+	// Batched: the target connection keeps the arguments of Send until Flush and serialises them
+	// only then, as the tool's cluster connection does (utils.ClusterConn.Send -> Batch.Put).
+	// Debug: log.level = debug (the sender builds its debug lines from the commands' arguments)
+	Batched bool `json:"batched_connection,omitempty"`
+	Debug   bool `json:"log_level_debug,omitempty"`
+}
+
+// syncBatchConn models the argument retention of the cluster connection on top of a real redigo
+// connection: Send stores the command with its argument values as passed (no copy), Flush hands
+// them to the real connection.
+type syncBatchConn struct {
+	redigo.Conn
+	mu      sync.Mutex
+	pending []syncPending
+}
+
+type syncPending struct {
+	cmd  string
+	args []interface{}
+}
+
+func (b *syncBatchConn) Send(cmd string, args ...interface{}) error {
+	b.mu.Lock()
+	b.pending = append(b.pending, syncPending{cmd, args})
+	b.mu.Unlock()
+	return nil
+}
+
+func (b *syncBatchConn) Flush() error {
+	b.mu.Lock()
+	p := b.pending
+	b.pending = nil
+	b.mu.Unlock()
+	for _, x := range p {
+		if err := b.Conn.Send(x.cmd, x.args...); err != nil {
+			return err
+		}
+	}
+	return b.Conn.Flush()
 }
 
 func (c syncConfig) apply() {
@@ -140,6 +185,9 @@ func (c syncConfig) apply() {
 	conf.Options.Metric = true
 	conf.Options.Id = "verif"
 	conf.Options.LogLevel = "info"
+	if c.Debug {
+		conf.Options.LogLevel = utils.LogLevelDebug
+	}
 }
 
 type expCmd struct {
@@ -302,7 +350,10 @@ func syncExecuteWith(t *testing.T, cfg syncConfig, segs [][]byte, srv *mredis.Se
 		synctest.Test(t, func(t *testing.T) {
 			tc, ts := memconn.Pair("target")
 			go srv.Serve(ts)
-			c := redigo.NewConn(tc, 0, 0)
+			var c redigo.Conn = redigo.NewConn(tc, 0, 0)
+			if cfg.Batched {
+				c = &syncBatchConn{Conn: c}
+			}
 			sc, ss := memconn.Pair("source")
 			ds := syncNewDs(cfg)
 			go ds.receiveTargetReply(c)
